@@ -302,8 +302,35 @@ def run(case):
 
 # ----------------------------------------------------------------------------- workloads
 
+_FORCE = {}      # set by const_case: {"nk": number of keys} or {"around": key values around multiples of this number}
+
+
 def gen_keys(rng, kd=None, style=None, nk=None, tier="quick"):
     kd = kd if kd != "pick" else rng.choice(KD)
+    if _FORCE.get("nk") or _FORCE.get("around"):
+        # sizes / key values taken from the numeric constants of the library source (rtmon/codeconst.py)
+        if _FORCE.get("nk"):
+            nk = _FORCE["nk"]
+            if kd is not None and np.iinfo(kd).max < 4 * nk + 70:
+                kd = rng.choice([None, "int64", "uint64", "int32"])
+            lo, hi = (-2 ** 62, 2 ** 62) if kd is None else (int(np.iinfo(kd).min), int(np.iinfo(kd).max))
+            lo2 = rng.choice([0, 0, max(lo, -nk)])
+            hi2 = lo2 + rng.choice([nk + 2, 2 * nk, 4 * nk + 60])
+            keys = rng.sample(range(lo2, hi2 + 1), nk)
+        else:
+            a = _FORCE["around"]
+            if kd is not None and np.iinfo(kd).max < 3 * a + 2:
+                kd = rng.choice([None, "int64", "uint64"])
+            lo, hi = (-2 ** 62, 2 ** 62) if kd is None else (int(np.iinfo(kd).min), int(np.iinfo(kd).max))
+            pool = [m * a + d for m in (1, 2, 3) for d in (-1, 0, 1)] + [0, 1, a // 2, a + 7]
+            if lo < 0:
+                pool += [-a, -a - 1, -a + 1]
+            pool = sorted(set(x for x in pool if lo <= x <= hi))
+            keys = rng.sample(pool, rng.randint(2, len(pool)))
+            lo2, hi2 = min(keys), max(keys)
+        if rng.random() < 0.3:
+            keys.sort()
+        return keys, kd, "codeconst", (lo, hi), (lo2, hi2)
     nk = nk or rng.randint(1, 10 if tier == "quick" else 64)
     if kd in ("int8", "uint8"):
         nk = min(nk, 64)
@@ -499,6 +526,36 @@ def directed():
 
 def random_case(rng, tier):
     return gen_history(rng, tier)
+
+
+def const_case(rng, tier, s, form):
+    """a number taken from the library source (+-1) as the number of keys / the modulus / a value around which the keys lie / the number of keys in one query"""
+    try:
+        if form in ("rows", "nonempty"):
+            if s > 30000:
+                return None
+            _FORCE["nk"] = s
+            return gen_history(rng, tier, nops=rng.randint(2, 6) if s > 2000 else None)
+        if form == "rowlen":
+            if s > 5000:
+                return None
+            _FORCE["nk"] = rng.choice([3, 10, s, 2 * s + 1]) if s <= 500 else rng.choice([3, 10, 40])
+            return gen_history(rng, tier, kd=rng.choice([None, "int64", "int32", "uint64"]), mod=s)
+        if form == "emptyrun":
+            _FORCE["around"] = s
+            return gen_history(rng, tier)
+        # "cells": one vector look-up / membership test / assignment with exactly s entries
+        if s > 60000:
+            return None
+        _FORCE["nk"] = rng.choice([3, 12, 40])
+        c = gen_history(rng, tier, nops=3)
+        keys = c["keys"]
+        q = [rng.choice(keys) for _ in range(s)]
+        c["ops"] += [{"op": "getv", "table": "t", "keys": q}, {"op": "contains", "table": "t", "keys": q[:-1] + c["nonkeys"][:1]},
+                     {"op": "hs_containsv", "table": "t", "keys": (c["nonkeys"][:1] + q)[:s]}]
+        return c
+    finally:
+        _FORCE.clear()
 
 
 def classify(case, res):
